@@ -442,3 +442,193 @@ Theorem wait_true_sound : forall evs : list event, mon_wait false (snd (run_tr i
 Proof.
   intros evs. unfold mon_wait. destruct (GI_run evs init g0 GI_init) as [m' [E _]]. rewrite E. reflexivity.
 Qed.
+
+(* ================================================================ outside the finding classes the strict reading holds *)
+Definition no_cancel (tr : list (event * list obs)) : bool := negb (finding_F2 tr).
+Definition eot_only (tr : list (event * list obs)) : bool :=
+  forallb (fun eo => match fst eo with EMsg (MWait _ _ false _) => false | _ => true end) tr.
+Definition last_eot (m : gst) : bool :=
+  match g_last m with Some (MWait _ _ false _) => false | _ => true end.
+
+Lemma strict_step m eo m' :
+  g_lost m = [] -> last_eot m = true ->
+  (match eo with (ECancelCb, []) => false | _ => true end) = true ->
+  (match fst eo with EMsg (MWait _ _ false _) => false | _ => true end) = true ->
+  wait_step false m eo = Some m' ->
+  wait_step true m eo = Some m' /\ g_lost m' = [] /\ last_eot m' = true.
+Proof.
+  intros L E NC EO. destruct eo as [e o]. unfold wait_step.
+  assert (W : forall i, wait_ok true m i = wait_ok false m i).
+  { intros i. unfold wait_ok. destruct i as [[|[|]]|]; auto. unfold last_eot in E.
+    destruct (g_last m) as [[g|g t [|] wa|]|]; auto; try discriminate. rewrite L. cbn.
+    f_equal. }
+  destruct (is_skip o) eqn:SKP.
+  - intros H; inversion H; subst. auto.
+  - destruct e as [ms| |sid ok|sid| | | | | ]; destruct o as [|[i|] [|? ?]]; try discriminate; cbn in *.
+    + rewrite W. destruct (wait_ok false m i); [|discriminate]. intros H; inversion H; subst.
+      destruct ms as [g|g t [|] wa|]; cbn; auto; discriminate.
+    + rewrite W. destruct (wait_ok false m i); [|discriminate]. intros H; inversion H; subst. cbn. auto.
+    + intros H; inversion H; subst; cbn; auto.
+    + intros H; inversion H; subst; cbn; auto.
+    + intros H; inversion H; subst; cbn; auto.
+    + intros H; inversion H; subst; cbn; auto.
+    + intros H; inversion H; subst; cbn; auto.
+    + intros H; inversion H; subst; cbn; auto.
+Qed.
+
+Lemma strict_run tr : forall m m',
+  g_lost m = [] -> last_eot m = true -> no_cancel tr = true -> eot_only tr = true ->
+  wait_run false m tr = Some m' -> wait_run true m tr = Some m'.
+Proof.
+  induction tr as [|eo r IH]; intros m m' L E NC EO H; cbn in *; auto.
+  unfold no_cancel, finding_F2 in NC. cbn in NC, EO. rewrite negb_orb in NC.
+  apply andb_true_iff in NC. destruct NC as [NC1 NC2]. apply andb_true_iff in EO. destruct EO as [EO1 EO2].
+  destruct (wait_step false m eo) as [m1|] eqn:S; [|discriminate].
+  destruct (strict_step m eo m1 L E) as [S1 [L1 E1]]; auto.
+  - destruct eo as [[] [|]]; auto; discriminate.
+  - rewrite S1. eapply IH; eauto.
+Qed.
+
+Theorem wait_true_strict : forall evs : list event,
+  no_cancel (snd (run_tr init evs)) = true -> eot_only (snd (run_tr init evs)) = true ->
+  mon_wait true (snd (run_tr init evs)) = true.
+Proof.
+  intros evs NC EO. pose proof (wait_true_sound evs) as H. unfold mon_wait in *.
+  destruct (wait_run false g0 (snd (run_tr init evs))) as [m'|] eqn:R; [|discriminate].
+  rewrite (strict_run _ g0 m' eq_refl eq_refl NC EO R). reflexivity.
+Qed.
+
+(* ================================================================ the result of a wait, step by step *)
+(* the status task wakes: whether a future of the group is still unresolved decides between the two endings *)
+Lemma wake_decides s w b :
+  ended s = false -> blk s = Some w -> w_sp w = SWait b ->
+  step s EWakeS = if b then (with_blk s (Some (set_sp w (SFinished (unresolved (stat s) (w_futs w))))), [])
+                  else skip s.
+Proof. intros En B SP. unfold step. rewrite En, B, SP. destruct b; reflexivity. Qed.
+
+(* `_wait` resumes: True when every future was resolved; otherwise the group is put back and the answer is the
+   timeout error (error_on_timeout) or whether every status object is done *)
+Lemma resume_result s w timedout :
+  ended s = false -> blk s = Some w -> w_sp w = SFinished timedout ->
+  let s' := fst (step s EResume) in
+  blk s' = None /\ slot s' = slot s /\ stat s' = stat s /\
+  (timedout = false -> rsp s' = Some (RVal (VBool true)) /\ groups s' = groups s) /\
+  (timedout = true -> groups s' = put (w_g w) (w_futs w) (groups s) /\
+     rsp s' = Some (if w_eot w then RExn XTimeout else RVal (VBool (forallb (objdone (stat s)) (w_futs w))))).
+Proof.
+  intros En B SP. unfold step. rewrite En, B, SP. destruct timedout; cbn; repeat split; auto; discriminate.
+Qed.
+
+(* a wait on a group without statuses (never used, or already consumed) answers True at once *)
+Lemma wait_empty_group s g tmo eot watch :
+  lookup g (groups s) = [] ->
+  process s (MWait g tmo eot watch) = mkst (groups s) (stat s) None (Some (RVal (VBool true))) None false.
+Proof. intros H. cbn. rewrite H. reflexivity. Qed.
+
+(* what the plan is given: the slot first, and it is emptied *)
+Lemma slot_first s e m :
+  ended s = false -> blk s = None -> slot s = Some e ->
+  snd (step s (EMsg m)) = [OIn (IThrow e)] /\ slot (fst (step s (EMsg m))) = None.
+Proof.
+  intros En B S. unfold step, delivery. rewrite En, B, S. cbn. split; auto. apply process_slot.
+Qed.
+
+(* a member fails while another is unresolved, error_on_timeout: the response is the timeout error, the slot holds the
+   failure, the group is put back whole; the plan is thrown the FAILURE at the yield of the wait *)
+Lemma fail_while_pending s w sid :
+  ended s = false -> blk s = Some w -> w_sp w = SWait false -> w_eot w = true ->
+  In sid (w_futs w) -> sget (stat s) sid = Some (SFin false) ->
+  (exists other, In other (w_futs w) /\ other <> sid /\ resolved (stat s) other = false) ->
+  let s1 := fst (step s (EDone sid)) in
+  let s3 := run s1 [EWakeS; EResume] in
+  slot s3 = Some (XFailed sid) /\ rsp s3 = Some (RExn XTimeout) /\ blk s3 = None /\
+  lookup (w_g w) (groups s3) = w_futs w /\
+  forall m, snd (step s3 (EMsg m)) = [OIn (IThrow (XFailed sid))].
+Proof.
+  intros En B SP EO IN G [other [IO [NE NR]]].
+  assert (REL : released (sset (stat s) sid (SDone false)) (w_futs w) = true).
+  { unfold released. apply orb_true_iff. left. apply existsb_exists. exists sid. split; auto.
+    unfold failed. rewrite (sget_sset_same _ _ _ _ G). reflexivity. }
+  assert (UNR : unresolved (sset (stat s) sid (SDone false)) (w_futs w) = true).
+  { unfold unresolved. apply negb_true_iff. apply not_true_is_false. intros F.
+    rewrite forallb_forall in F. specialize (F other IO).
+    rewrite (resolved_sset_done _ _ _ _ _ G) in F. rewrite NR in F.
+    destruct (Nat.eqb_spec sid other); [congruence|discriminate]. }
+  assert (RR : exists wp', rerelease (sset (stat s) sid (SDone false)) w
+                           = mkwt (w_g w) (w_futs w) (w_tmo w) true (SWait true) (w_wf w) wp').
+  { unfold rerelease. rewrite SP. destruct w as [g futs tmo eot sp wf wp]; cbn in *. subst. rewrite REL.
+    destruct wp as [|[|]| |]; cbn; eexists; reflexivity. }
+  destruct RR as [wp' RR].
+  assert (E1 : step s (EDone sid) =
+               (mkst (groups s) (sset (stat s) sid (SDone false)) (Some (XFailed sid)) (rsp s)
+                     (Some (mkwt (w_g w) (w_futs w) (w_tmo w) true (SWait true) (w_wf w) wp')) false, [])).
+  { unfold step. rewrite En, G, B. cbn [option_map]. rewrite RR. reflexivity. }
+  intros s1 s3. subst s3 s1. rewrite E1. cbn [fst]. unfold run. cbn. rewrite UNR. cbn.
+  repeat split; auto.
+  unfold put. cbn. rewrite Nat.eqb_refl. reflexivity.
+Qed.
+
+(* ================================================================ (c) what a step does not touch *)
+Lemma frame_groups s ev g' :
+  (forall w, blk s = Some w -> w_g w <> g') ->
+  ev <> EMsg (MAdd g') -> (forall t e wa, ev <> EMsg (MWait g' t e wa)) ->
+  lookup g' (groups (fst (step s ev))) = lookup g' (groups s).
+Proof.
+  intros HB NA NW. unfold step. destruct (ended s); [reflexivity|].
+  destruct ev as [ms| |sid ok|sid| | | | | ]; cbn.
+  - destruct (blk s); [reflexivity|]. destruct (delivery s); [|reflexivity]. cbn.
+    destruct ms as [g|g t e wa|]; cbn; auto.
+    + apply lookup_put_other. intros ->. apply NA; reflexivity.
+    + destruct (lookup g (groups s)) eqn:L; cbn; auto. apply lookup_remove_other. intros ->. eapply NW; reflexivity.
+  - destruct (blk s); [reflexivity|]. destruct (delivery s); reflexivity.
+  - destruct (sget (stat s) sid) as [[| |]|]; reflexivity.
+  - destruct (sget (stat s) sid) as [[| |]|]; reflexivity.
+  - destruct (blk s) as [w|]; [|reflexivity]. destruct (w_tmo w); [|reflexivity]. destruct (w_sp w); reflexivity.
+  - destruct (blk s) as [w|]; [|reflexivity]. destruct (w_sp w) as [[|]|]; reflexivity.
+  - destruct (blk s) as [w|] eqn:B; [|reflexivity]. destruct (w_sp w) as [|[|]]; try reflexivity. cbn.
+    apply lookup_put_other. apply HB. reflexivity.
+  - destruct (blk s) as [w|]; [|reflexivity]. destruct (w_wp w) as [|[|]| |]; reflexivity.
+  - destruct (blk s) as [w|]; [|reflexivity]. destruct (w_wp w) as [|?| |]; try reflexivity. destruct (w_sp w); reflexivity.
+Qed.
+
+Lemma frame_status s ev sid x :
+  sget (stat s) sid = Some x -> (forall ok, ev <> EFinish sid ok) -> ev <> EDone sid ->
+  sget (stat (fst (step s ev))) sid = Some x.
+Proof.
+  intros G NF ND. unfold step. destruct (ended s); [exact G|].
+  destruct ev as [ms| |j ok|j| | | | | ]; cbn.
+  - destruct (blk s); [exact G|]. destruct (delivery s); [|exact G]. cbn.
+    destruct ms as [g|g t e wa|]; cbn; auto.
+    + destruct (sget_app_pend (stat s) sid) as [E|[[E1 E2]|[E1 E2]]]; congruence.
+    + destruct (lookup g (groups s)); exact G.
+  - destruct (blk s); [exact G|]. destruct (delivery s); exact G.
+  - destruct (sget (stat s) j) as [[| |]|] eqn:GJ; try exact G. cbn.
+    rewrite sget_sset_other; [exact G|]. intros ->. eapply NF; reflexivity.
+  - destruct (sget (stat s) j) as [[| |]|] eqn:GJ; try exact G. cbn.
+    rewrite sget_sset_other; [exact G|]. intros ->. apply ND; reflexivity.
+  - destruct (blk s) as [w|]; [|exact G]. destruct (w_tmo w); [|exact G]. destruct (w_sp w); exact G.
+  - destruct (blk s) as [w|]; [|exact G]. destruct (w_sp w) as [[|]|]; exact G.
+  - destruct (blk s) as [w|]; [|exact G]. destruct (w_sp w) as [|[|]]; exact G.
+  - destruct (blk s) as [w|]; [|exact G]. destruct (w_wp w) as [|[|]| |]; exact G.
+  - destruct (blk s) as [w|]; [|exact G]. destruct (w_wp w) as [|?| |]; try exact G. destruct (w_sp w); exact G.
+Qed.
+
+(* the slot changes only by a delivery (emptied) or by a failure being recorded *)
+Lemma frame_slot s ev e :
+  slot s = Some e ->
+  slot (fst (step s ev)) = Some e
+  \/ (snd (step s ev) = [OIn (IThrow e)] /\ slot (fst (step s ev)) = None)
+  \/ (exists sid, ev = EDone sid /\ sget (stat s) sid = Some (SFin false) /\ slot (fst (step s ev)) = Some (XFailed sid)).
+Proof.
+  intros S. unfold step. destruct (ended s); [left; exact S|].
+  destruct ev as [ms| |j ok|j| | | | | ]; cbn.
+  - destruct (blk s); [left; exact S|]. unfold delivery. rewrite S. cbn. right; left. split; auto. apply process_slot.
+  - destruct (blk s); [left; exact S|]. unfold delivery. rewrite S. cbn. right; left. auto.
+  - destruct (sget (stat s) j) as [[| |]|]; left; exact S.
+  - destruct (sget (stat s) j) as [[|[|]|]|] eqn:G; cbn; auto. right; right. exists j. auto.
+  - destruct (blk s) as [w|]; [|left; exact S]. destruct (w_tmo w); [|left; exact S]. destruct (w_sp w); left; exact S.
+  - destruct (blk s) as [w|]; [|left; exact S]. destruct (w_sp w) as [[|]|]; left; exact S.
+  - destruct (blk s) as [w|]; [|left; exact S]. destruct (w_sp w) as [|[|]]; left; exact S.
+  - destruct (blk s) as [w|]; [|left; exact S]. destruct (w_wp w) as [|[|]| |]; left; exact S.
+  - destruct (blk s) as [w|]; [|left; exact S]. destruct (w_wp w) as [|?| |]; try (left; exact S). destruct (w_sp w); left; exact S.
+Qed.
